@@ -359,6 +359,52 @@ class Program(object):
                 return self.resolve_member(r, attr)
         return None
 
+    # ------------------------------------------------------------------ registries
+    _MUTATORS = ('append', 'update', 'pop', 'clear', 'setdefault', 'extend', 'insert', 'remove', 'add', 'discard',
+                 'popitem', '__setitem__')
+
+    def mutated_containers(self):
+        """ids of the initialiser expressions of module- / class-level containers that some code in the program
+        fills or changes afterwards (registries filled by decorators, caches): their initial literal says
+        nothing about their content when a function runs, so they must not be folded to a constant."""
+        if getattr(self, '_mutated', None) is not None:
+            return self._mutated
+        names = set()
+        for f in self.all_functions():
+            for n in ast.walk(f.node):
+                t = None
+                if isinstance(n, (ast.Assign, ast.AugAssign, ast.Delete)):
+                    tg = n.targets if not isinstance(n, ast.AugAssign) else [n.target]
+                    for x in tg:
+                        if isinstance(x, ast.Subscript):
+                            t = x.value
+                            if isinstance(t, ast.Attribute):
+                                names.add(t.attr)
+                            elif isinstance(t, ast.Name):
+                                names.add(t.id)
+                elif isinstance(n, ast.Call) and isinstance(n.func, ast.Attribute) and n.func.attr in self._MUTATORS:
+                    t = n.func.value
+                    if isinstance(t, ast.Attribute):
+                        names.add(t.attr)
+                    elif isinstance(t, ast.Name):
+                        names.add(t.id)
+        out = set()
+
+        def is_container(e):
+            return isinstance(e, (ast.Dict, ast.List, ast.Set)) or \
+                (isinstance(e, ast.Call) and isinstance(e.func, ast.Name) and e.func.id in ('dict', 'list', 'set')
+                 and not e.args and not e.keywords)
+        for m in self.modules.values():
+            for name, e in m.assigns.items():
+                if name in names and is_container(e):
+                    out.add(id(e))
+            for c in m.classes.values():
+                for name, e in c.attrs.items():
+                    if name in names and is_container(e):
+                        out.add(id(e))
+        self._mutated = out
+        return out
+
     # ------------------------------------------------------------------ constant folding
     def fold(self, expr, module, cls=None, env=None, _depth=0):
         """Fold an expression to a Python value or raise NotConst."""
